@@ -1,5 +1,6 @@
 """C10 - documents and the cache file are replaced atomically."""
 import ast
+import re
 
 from ..engine import rule, Ctx
 from ..core import UNKNOWN, dotted, kwarg, body_nodes, inline, stmt_key, canon, walk_no_nested, resolve_import_name
@@ -172,6 +173,13 @@ def c10_c(ctx: Ctx):
         if e.kind == "unknown-open":
             out.append(ctx.inc(R, fi, e.node, "open mode not constant"))
             continue
+        mm = re.search(r"\(([^)]*)\)$", e.prim)
+        mode = mm.group(1) if mm else ""
+        if "a" in mode or "+" in mode and "w" not in mode:
+            out.append(ctx.viol(R, fi, e.node, f"the temporary is opened with mode {mode!r}, which does not truncate: a temporary left behind by a crashed writer is appended to, and the next "
+                                "successful update renames a two-member / torn file over the cache", construct=UPD + "|tmp-truncated"))
+        else:
+            out.append(ctx.ok(R, fi, e.node, f"the temporary is (re)created empty (mode {mode!r})", construct=UPD + "|tmp-truncated"))
         tgt = inline(e.target, env)
         ttxt = canon(tgt)
         is_cache_direct = "FN_CACHE" in ttxt and not (isinstance(tgt, ast.BinOp) and isinstance(tgt.op, ast.Add))
